@@ -992,7 +992,18 @@ def _check_prop_entries(ctx, f: FuncInfo, res: RuleResult):
         i = lp.target.id
         pre = [st for st in f.node.body if st is not lp and getattr(st, "lineno", 0) < lp.lineno]
         spans = {}
-        for iv in range(8):
+        # the values the loop variable takes for the entries 1..8: 0..7 for range(n), start + k*step for range(start, stop, step)
+        env0 = run_straightline(pre, {})
+        rargs = lp.iter.args
+        if len(rargs) == 1:
+            values = list(range(8))
+        else:
+            start_ = _int_or_none(rargs[0], env0)
+            step_ = _int_or_none(rargs[2], env0) if len(rargs) > 2 else 1
+            if start_ is None or step_ is None:
+                raise AnalysisError(f"R-COLS: cannot evaluate the bounds of `{short(lp.iter, 60)}` in {f.qualname}")
+            values = [start_ + k_ * step_ for k_ in range(8)]
+        for iv_pos, iv in enumerate(values):
             env = run_straightline(pre, {})
             env[i] = iv
             env = run_straightline(lp.body, env)
@@ -1000,8 +1011,8 @@ def _check_prop_entries(ctx, f: FuncInfo, res: RuleResult):
                 lo = _int_or_none(s.slice.lower, env) if s.slice.lower else 0
                 hi = _int_or_none(s.slice.upper, env) if s.slice.upper else None
                 from .spec import canon_span
-                c_lo, c_hi = canon_span("prop", lo - 8 * iv, hi - 8 * iv) if isinstance(lo, int) and isinstance(hi, int) else (lo, hi)
-                spans.setdefault(norm(s), (s, []))[1].append((c_lo + 8 * iv, c_hi + 8 * iv) if isinstance(c_lo, int) and isinstance(c_hi, int) else (lo, hi))
+                c_lo, c_hi = canon_span("prop", lo - 8 * iv_pos, hi - 8 * iv_pos) if isinstance(lo, int) and isinstance(hi, int) else (lo, hi)
+                spans.setdefault(norm(s), (s, []))[1].append((c_lo + 8 * iv_pos, c_hi + 8 * iv_pos) if isinstance(c_lo, int) and isinstance(c_hi, int) else (lo, hi))
         atom_want = [(V2000_PROP["entry_offset"] + V2000_PROP["entry_len"] * k + V2000_PROP["atom"][0],
                       V2000_PROP["entry_offset"] + V2000_PROP["entry_len"] * k + V2000_PROP["atom"][1]) for k in range(8)]
         val_want = [(V2000_PROP["entry_offset"] + V2000_PROP["entry_len"] * k + V2000_PROP["value"][0],
